@@ -330,6 +330,12 @@ pub struct Z<TT: ?Sized>(pub u8, pub PhantomData<TT>);
 impl<TT: ?Sized> zeroize::Zeroize for Z<TT> { fn zeroize(&mut self) { self.0 = 0; } }
 impl<TT: ?Sized> Clone for Z<TT> { fn clone(&self) -> Self { Z(self.0, PhantomData) } }
 impl<TT: ?Sized> fmt::Debug for Z<TT> { fn fmt(&self, f: &mut fmt::Formatter<'_>) -> fmt::Result { f.write_str("z") } }
+impl<TT: ?Sized> PartialEq for Z<TT> { fn eq(&self, o: &Self) -> bool { self.0 == o.0 } }
+impl<TT: ?Sized> Eq for Z<TT> {}
+impl<TT: ?Sized> PartialOrd for Z<TT> { fn partial_cmp(&self, o: &Self) -> Option<Ordering> { Some(self.0.cmp(&o.0)) } }
+impl<TT: ?Sized> Ord for Z<TT> { fn cmp(&self, o: &Self) -> Ordering { self.0.cmp(&o.0) } }
+impl<TT: ?Sized> Hash for Z<TT> { fn hash<H: Hasher>(&self, s: &mut H) { s.write_u8(self.0) } }
+impl<TT: ?Sized> Default for Z<TT> { fn default() -> Self { Z(0, PhantomData) } }
 '''
 
 
